@@ -159,12 +159,19 @@ def run(ctx: Ctx):
                 bad_names.append((alias, sorted(_avn.show(n) for n in names)))
         ctx.check(not bad_names, "R05.b", gs.key("co_name"), "returned function is renamed to the requested scheme name", f"get_scheme does not rename the returned function to the requested name (co_name: {bad_names[:3]})", gs.where())
     cg = sm.func("codegen/base.py", "CodeGenerator.scheme")
-    tcalls = [c for c in find_calls(cg.node, "template.method")]
-    ctx.require(tcalls, "CodeGenerator.scheme no longer calls self.template.method")
-    nm = call_kw(tcalls[0], "name")
+    from sa import av as _avcg
+
+    from . import util as _util
+
+    cgv = _util.value_of(ctx, cg)
+    tcalls = [m_ for m_ in _avcg.find_all(cgv, "mcall") if m_[2] == "method" and _avcg.show(m_[1]).endswith("template")]
     fparam = cg.params[1]
-    ok = nm is not None and norm(nm) in (f"{fparam}.__code__.co_name", f"{fparam}.__name__")
-    ctx.check(ok, "R05.b", cg.key("method-name"), "generated function is named after the scheme function's code name", f"CodeGenerator.scheme names the generated function {norm(nm) if nm is not None else None!r}, not the scheme function's name", cg.where(tcalls[0]))
+    if not tcalls:
+        ctx.undecided("R05.b", cg.key("method-name"), "CodeGenerator.scheme: the template.method(...) call is not found in what it computes; the name of the generated function is not judged", cg.where())
+    else:
+        nm = dict(tcalls[0][4]).get("name")
+        ok = nm is not None and _avcg.show(nm) in (f"{fparam}.__code__.co_name", f"{fparam}.__name__")
+        ctx.check(ok, "R05.b", cg.key("method-name"), "generated function is named after the scheme function's code name", f"CodeGenerator.scheme names the generated function {_avcg.show(nm) if nm is not None else None!r}, not the scheme function's name", cg.where())
 
     builders = set(table.values())
     bad = []
@@ -224,16 +231,21 @@ def run(ctx: Ctx):
         ctx.check(allocs, "R05.c", f.key("values_type"), f"result allocated by {vt}", f"{qn}: result array expression {vt!r} does not allocate a fresh array (inputs could be aliased and modified)", f.where())
         ctx.check(rn == "values", "R05.c", f.key("return_name"), "result array is called 'values'", f"{qn}: return_name is {rn!r}; the templates and printers write to 'values'", f.where())
     # the scheme writes to the array that is returned
-    kw_name = call_kw([c for c in ast.walk(cg.node) if isinstance(c, ast.Call) and isinstance(c.func, ast.Name) and c.func.id == fparam][0], "name")
-    kw_ret = call_kw(tcalls[0], "return_name")
-    ctx.check(
-        kw_name is not None and kw_ret is not None and norm(kw_name) == norm(kw_ret),
-        "R05.c",
-        cg.key("name==return_name"),
-        "scheme builder writes to the array the template returns",
-        f"CodeGenerator.scheme passes name={norm(kw_name) if kw_name else None} to the builder but return_name={norm(kw_ret) if kw_ret else None} to the template",
-        cg.where(),
-    )
+    # (read from the value of CodeGenerator.scheme: the builder call f(...) and the template.method(...) call)
+    bcalls = [c_ for c_ in _avcg.find_all(cgv, "call") if c_[1] == fparam]
+    if not tcalls or not bcalls:
+        ctx.undecided("R05.c", cg.key("name==return_name"), "CodeGenerator.scheme: the builder call / the template.method(...) call is not found in what it computes", cg.where())
+    else:
+        kw_name = dict(bcalls[0][3]).get("name")
+        kw_ret = dict(tcalls[0][4]).get("return_name")
+        ctx.check(
+            kw_name is not None and kw_ret is not None and kw_name == kw_ret,
+            "R05.c",
+            cg.key("name==return_name"),
+            "scheme builder writes to the array the template returns",
+            f"CodeGenerator.scheme passes name={_avcg.show(kw_name) if kw_name else None} to the builder but return_name={_avcg.show(kw_ret) if kw_ret else None} to the template",
+            cg.where(),
+        )
     # C backend: const formals
     from sa import av as _av
 
